@@ -16,6 +16,47 @@ def layers(cls, types):
     return [frozenset(map(id, g)) for g in sort_types(cls, types)]
 
 
+def _names_probe():
+    """outcomes that must not depend on the iteration order of sets of NAMES: a position that two methods name differently
+    (strictly positional, docs/usage.md), and a body that uses recurse and then the function's own name"""
+    import linecache
+
+    from ovld import Ovld, recurse  # noqa: F401
+
+    def call(th):
+        try:
+            return th()
+        except TypeError as e:
+            m = str(e)
+            return "positional-only" if "positional-only" in m else "unexpected-keyword" if "unexpected keyword" in m else "AMBIGUOUS" if m.startswith("Ambiguous") else "NOMETHOD" if m.startswith("No method") else "TypeError"
+        except Exception as e:
+            return type(e).__name__
+
+    out = []
+    o = Ovld(name="names")
+
+    def m1(left: int, other: object = None):
+        return "int"
+
+    def m2(right: str, other: object = None):
+        return "str"
+
+    o.register(m1)
+    o.register(m2)
+    out += [call(lambda: o(1)), call(lambda: o("a")), call(lambda: o(left=1)), call(lambda: o(right="a")), call(lambda: o(1, other=None)), call(lambda: o(left=1, other=None))]
+    src = "def walk(x: list):\n    return [recurse(y) for y in x] + [walk(0)]\n\ndef walk_int(x: int):\n    return x + 1\n"
+    fname = "<seedprobe-walk>"
+    linecache.cache[fname] = (len(src), None, src.splitlines(True), fname)
+    g = {"recurse": recurse}
+    exec(compile(src, fname, "exec"), g)
+    w = Ovld(name="walk")
+    w.register(g["walk"])
+    w.register(g["walk_int"])
+    g["walk"] = w  # the module-level name is bound to the overloaded function, as after `@ovld def walk`
+    out.append(call(lambda: w([1, 2])))
+    return out
+
+
 def main():
     if len(sys.argv) > 1 and sys.argv[1] == "seedprobe":
         import c02_oracle
@@ -23,6 +64,7 @@ def main():
         outs = []
         for sc in itertools.islice(c02_oracle.scenarios(), 0, 400, 7):
             outs.append(c02_oracle.run_scenario(sc)[0])
+        outs.append(_names_probe())
         print(json.dumps(outs))
         return 0
     terms = T.terms(depth=2)
@@ -83,7 +125,7 @@ def main():
         failing.append(dict(name="registration_order_independent[deferred_references]", n_violations=1, violations=[dict(order_a=outs[0], order_b=outs[1], expected=["ref2", "ref3", "object"])]))
     # hash seeds
     ref = None
-    for seed in ("0", "1", "12345"):
+    for seed in ("0", "1", "12345", "2", "3", "99"):
         n += 1
         env = dict(os.environ, PYTHONHASHSEED=seed)
         p = subprocess.run([sys.executable, __file__, "seedprobe"], env=env, capture_output=True, text=True)
